@@ -55,6 +55,18 @@ CATALOGUE = [
 ]
 
 
+# byte streams used to observe what the XML parser can raise inside the parse loops
+PARSE_CATALOGUE = [
+    b'', b'<', b'<a', b'<a>', b'<a></b>', b'<a/><b/>', b'text', b'<a>&undefined;</a>', b'<a>&#0;</a>', b'<a>\x00</a>', b'<a>\xff</a>',
+    b'<?xml version="1.0" encoding="no-such-encoding"?><a/>', b'<?xml version="1.0" encoding="utf-32"?><a/>',
+    b'<?xml version="1.0" encoding="utf-16"?><a/>', b'<?xml version="2.0"?><a/>', b'\xff\xfe<\x00a\x00/\x00>\x00', b'\xef\xbb\xbf<a/>',
+    b'<?xml version="1.0" encoding="ucs-4"?><a/>', b'<?xml version="1.0" encoding="cp037"?><a/>', b'<a xmlns:p=""/>', b'<p:a/>',
+    b'<a a="1" a="2"/>', b'<!DOCTYPE a [<!ENTITY e "&e;">]><a>&e;</a>', b'<a><![CDATA[x]]', b'<a>]]></a>', b'<?xml version="1.0" encoding="latin-1"?><a>\xe9</a>',
+    b'<?xml version="1.0" encoding="ascii"?><a>\xe9</a>', b'<?xml version="1.0" encoding="utf-7"?><a/>', b'<?xml version="1.0" encoding="idna"?><a/>',
+    b'<?xml version="1.0" encoding="big5"?><a/>', b'<?xml version="1.0" encoding="rot13"?><a/>', b'<?xml version="1.0" encoding="base64"?><a/>',
+]
+
+
 # ------------------------------------------------------------------------------------------------
 # translator: tables regenerated from the current source
 
@@ -147,6 +159,21 @@ def find_sites() -> list[tuple[str, list[str]]]:
             for h in t.handlers:
                 hs.extend(handler_names(h))
             sites.append(('element.get_instance_type', sorted(set(hs))))
+    fn = method('xmlschema/validators/assertions.py', 'XsdAssert', '__call__')
+    if fn is not None:
+        for t, _ in tries_with(fn, 'evaluate'):
+            hs = []
+            for h in t.handlers:
+                hs.extend(handler_names(h))
+            sites.append(('assertion.evaluate', sorted(set(hs))))
+    for meth in ('_parse', '_lazy_iterparse'):
+        fn = method('xmlschema/resources/xml_loader.py', 'XMLResourceLoader', meth)
+        if fn is not None:
+            for t, _ in tries_with(fn, '_iterparse'):
+                hs = []
+                for h in t.handlers:
+                    hs.extend(handler_names(h))
+                sites.append(('xml_loader.' + meth, sorted(set(hs))))
     return sorted(set((n, tuple(h)) for n, h in sites))  # type: ignore
 
 
@@ -172,7 +199,44 @@ def observe_raisable() -> dict[str, list[type]]:
             s.maps.get_instance_type(name, base, {'t': G.TNS, 'xs': 'http://www.w3.org/2001/XMLSchema'})
         except Exception as e:  # noqa
             xsi[type(e).__name__] = type(e)
-    return {'builtin.to_python:skip': [conv[k] for k in sorted(conv)],
+    # XSD 1.1 assertions: exceptions that reach XsdAssert.__call__ from the XPath machinery
+    asrt: dict[str, type] = {}
+    import xmlschema.validators.assertions as A
+    s11 = xmlschema.XMLSchema11(G.xsd_text('T', True))
+    px = 'xmlns:p="urn:t" xmlns:xsi="%s"' % G.XSI
+    orig_call = A.XsdAssert.__call__
+
+    def spy(self, *a, **k):  # type: ignore
+        try:
+            return orig_call(self, *a, **k)
+        except xmlschema.XMLSchemaValidationError:
+            raise
+        except Exception as e:  # noqa
+            asrt[type(e).__name__] = type(e)
+            raise
+    A.XsdAssert.__call__ = spy  # type: ignore
+    try:
+        for body in ('<p:price>NaN</p:price>', '<p:price>abc</p:price>', '<p:price>-1</p:price>', '<p:price>1</p:price>',
+                     '<p:code xsi:type=":">A</p:code><p:price>1</p:price>', '<p:code xsi:type="a:b:c">A</p:code><p:price>1</p:price>',
+                     '<p:price>1e999999</p:price>', '<p:price>' + '9' * 500 + '</p:price>', '<p:price/>', ''):
+            try:
+                s11.is_valid('<p:root %s version="2"><p:title>x</p:title><p:item key="1">%s</p:item></p:root>' % (px, body))
+            except Exception:  # noqa
+                pass
+    finally:
+        A.XsdAssert.__call__ = orig_call  # type: ignore
+    parse: dict[str, type] = {}
+    from xml.etree import ElementTree as ET
+    for data in PARSE_CATALOGUE:
+        try:
+            for _ in ET.iterparse(io.BytesIO(data), events=('start-ns', 'end-ns', 'start', 'comment', 'pi', 'end')):
+                pass
+        except Exception as e:  # noqa
+            parse[type(e).__name__] = type(e)
+    return {'assertion.evaluate': [asrt[k] for k in sorted(asrt)],
+            'xml_loader._parse': [parse[k] for k in sorted(parse)],
+            'xml_loader._lazy_iterparse': [parse[k] for k in sorted(parse)],
+            'builtin.to_python:skip': [conv[k] for k in sorted(conv)],
             'builtin.to_python:validate': [conv[k] for k in sorted(conv)],
             'group.check_dynamic_context': [xsi[k] for k in sorted(xsi)],
             'element.get_instance_type': [xsi[k] for k in sorted(xsi)]}
@@ -310,3 +374,913 @@ if __name__ == '__main__':
     sys.path.insert(0, str(REPO))
     translate(None)
     print(GENERATED.read_text()[:3000])
+
+
+# ================================================================================================
+# the check
+
+RULE = ('limit cases: one (limit setting, document, eager|lazy) — chains / wide / comb documents at limit-1, limit, '
+        'limit+1 and random forests; non-trivial = the document is refused, or its depth or size is within 1 of a limit; '
+        'setter cases: one assignment sequence, non-trivial = contains a rejected assignment; fuzz cases: one '
+        '(schema, mutated document, entry point family); non-trivial = the outcome is not "valid" (invalid verdict, '
+        'library error or foreign exception); handler cases: one (site, type, lexical value); distinct by canonical JSON')
+TRUSTED = [
+    'termination and the absence of foreign exceptions in the interpreter are runtime facts: monitored by the '
+    'mutation/fuzz exploration of this run, not proved',
+    'the event stream given to the model is produced by xml.etree.ElementTree.iterparse on the same bytes (expat)',
+    'the exception classes "raisable" under each conversion site are observed (catalogue of lexical values) and '
+    'regenerated into lean/XsVerif/Generated/C11.lean on every run; handler lists are read from the AST of the source',
+]
+ASSUMPTIONS = [
+    'documents given as already parsed ElementTree/lxml trees are outside the limit clauses (the loader does not parse them)',
+    'C11-F2: RecursionError for documents nested deeper than the interpreter stack allows is a listed finding, '
+    'matched exactly by (class RecursionError, depth >= smallest failing depth measured on this run)',
+]
+
+RECURSIVE_XSD = '''<xs:schema xmlns:xs="http://www.w3.org/2001/XMLSchema">
+<xs:element name="n"><xs:complexType mixed="true"><xs:sequence>
+  <xs:element ref="n" minOccurs="0" maxOccurs="unbounded"/></xs:sequence>
+  <xs:attribute name="a" type="xs:int"/></xs:complexType></xs:element></xs:schema>'''
+
+
+def local_findings() -> list[dict]:
+    if FINDINGS_FILE.exists():
+        return json.loads(FINDINGS_FILE.read_text()).get('findings', [])
+    return []
+
+
+class State:
+    d0: Optional[int] = None          # smallest document depth at which the descent raises RecursionError
+    max_xml_depth: int = 1000
+
+
+def known_match(case: dict, detail: Any) -> Optional[str]:
+    """Exact rules of notes/findings/C11.json."""
+    if not isinstance(detail, dict):
+        return None
+    exc = detail.get('exc')
+    if exc == 'RecursionError':
+        d = case.get('depth')
+        if State.d0 is not None and isinstance(d, int) and State.d0 <= d <= State.max_xml_depth:
+            return 'C11-F2'
+        return None
+    if exc == 'OverflowError' and detail.get('mode') == 'skip':
+        if re.search(r'\d{10,}', case.get('xml', '') + str(case.get('value', ''))):
+            return 'C11-F4'
+        return None
+    wh = detail.get('where') or []
+    if exc == 'ValueError':
+        m = re.match(r"wrong format for (?:reference name|prefixed QName) '(.*)'$", detail.get('msg') or '')
+        if m and re.search(r'''xsi:type=(["'])\s*%s\s*\1''' % re.escape(m.group(1)), case.get('xml', '')):
+            return 'C11-F9'
+    if wh and re.search(r'validators/assertions\.py:\d+ __call__$', wh[-1]) and \
+            exc in ('InvalidOperation', 'OverflowError', 'ZeroDivisionError', 'DivisionByZero', 'DecimalException', 'ArithmeticError'):
+        return 'C11-F8'
+    if exc in ('LookupError', 'ValueError', 'UnicodeError'):
+        data = case_bytes(case)
+        if data is not None:
+            from xml.etree import ElementTree as ET
+            try:
+                for _ in ET.iterparse(io.BytesIO(data), events=('start',)):
+                    pass
+            except (LookupError, ValueError) as e:
+                if type(e).__name__ == exc and str(e)[:300] == detail.get('msg'):
+                    return 'C11-F6'
+            except Exception:  # noqa
+                pass
+        return None
+    if exc == 'XMLSchemaKeyError':
+        msg = detail.get('msg', '')
+        m = re.search(r"the namespace '([^']*)' is not loaded", msg)
+        if m and re.search(r'(decode|to_dict)', detail.get('entry', '')):
+            data = case_bytes(case)
+            if data is not None and root_namespace(data) == m.group(1):
+                return 'C11-F7'
+            return None
+        m = re.search(r"global component '([^']*)' not found", msg)
+        if m:
+            local = m.group(1).split('}')[-1].split(':')[-1]
+            if re.search(r'''xsi:type=["'][^"']*%s\s*["']''' % re.escape(local), case.get('xml', '')):
+                return 'C11-F5'
+    return None
+
+
+def case_bytes(case: dict) -> Optional[bytes]:
+    if case.get('hex'):
+        return bytes.fromhex(case['hex'])
+    if case.get('xml') is not None:
+        return case['xml'].encode('utf-8', 'surrogatepass')
+    return None
+
+
+def root_namespace(data: bytes) -> Optional[str]:
+    from xml.etree import ElementTree as ET
+    try:
+        for _, el in ET.iterparse(io.BytesIO(data), events=('start',)):
+            return el.tag[1:].split('}')[0] if el.tag.startswith('{') else ''
+    except Exception:  # noqa
+        return None
+    return None
+
+
+def report(ctx: Ctx, what: str, case: dict, detail: Any) -> None:
+    fid = known_match(case, detail)
+    if fid and any(e['id'] == fid and e.get('status') == 'known' for e in ctx.known):
+        ctx.known_hit(fid)
+    else:
+        ctx.failure(what, case, detail)
+
+
+# ------------------------------------------------------------------------------------------------
+# documents as forests
+
+def forest_xml(f: Any, rng: Any = None) -> str:
+    """f = list of (junk, children) — a forest; serialised with `junk` comments / PIs before each element.
+    Iterative (documents of depth 1000 and more are generated)."""
+    out: list[str] = []
+    stack: list[Any] = [('nodes', f, 0, 0)]
+    while stack:
+        item = stack.pop()
+        if item[0] == 'close':
+            out.append('</n>')
+            continue
+        _, nodes, idx, level = item
+        if idx >= len(nodes):
+            continue
+        junk, children = nodes[idx]
+        for k in range(junk):
+            out.append('<!--j-->' if (k + level) % 2 == 0 else '<?j x?>')
+        stack.append(('nodes', nodes, idx + 1, level))
+        if children:
+            out.append('<n>')
+            stack.append(('close',))
+            stack.append(('nodes', children, 0, level + 1))
+        else:
+            out.append('<n/>')
+    return ''.join(out)
+
+
+def forest_depth(f: list) -> int:
+    best = 0
+    stack = [(f, 0)]
+    while stack:
+        nodes, d = stack.pop()
+        for _, c in nodes:
+            best = max(best, d + 1)
+            if c:
+                stack.append((c, d + 1))
+    return best
+
+
+def forest_size(f: list) -> int:
+    n = 0
+    stack = [f]
+    while stack:
+        nodes = stack.pop()
+        n += len(nodes)
+        for _, c in nodes:
+            if c:
+                stack.append(c)
+    return n
+
+
+def chain(d: int) -> list:
+    f: list = []
+    for _ in range(d):
+        f = [(0, f)]
+    return f
+
+
+def wide(c: int) -> list:
+    return [(0, [(0, []) for _ in range(c - 1)])] if c >= 1 else []
+
+
+def comb(depth: int, count: int) -> list:
+    """A document of exactly `depth` levels and `count` elements (count >= depth >= 1)."""
+    spine = chain(depth)
+    extra = count - depth
+    node = spine[0]
+    # hang the extra leaves below the root (or next to it when depth == 1 — then it is not a document; avoided)
+    kids = list(node[1]) + [(0, []) for _ in range(extra)]
+    return [(0, kids)]
+
+
+def random_forest(rng: Any, max_depth: int, max_size: int) -> list:
+    budget = [rng.randint(1, max_size)]
+
+    def kids(level: int) -> list:
+        out = []
+        while budget[0] > 0 and rng.random() < (0.75 if level < max_depth else 0.0):
+            budget[0] -= 1
+            junk = rng.choice([0, 0, 0, 1, 2])
+            out.append((junk, kids(level + 1) if rng.random() < 0.6 else []))
+        return out
+    budget[0] -= 1
+    return [(rng.choice([0, 0, 1]), kids(1))]
+
+
+def events_of(data: bytes) -> Optional[str]:
+    from xml.etree import ElementTree as ET
+    m = {'start': 's', 'end': 'e'}
+    try:
+        return ''.join(m.get(ev, 'o') for ev, _ in ET.iterparse(
+            io.BytesIO(data), events=('start', 'end', 'start-ns', 'end-ns', 'comment', 'pi')))
+    except (ET.ParseError, LookupError, ValueError):
+        return None
+
+
+def resource_outcome(data: bytes, lazy: bool) -> dict:
+    """Build the resource and traverse it completely."""
+    import xmlschema
+    try:
+        r = xmlschema.XMLResource(data, lazy=lazy)
+        n = sum(1 for _ in r.iter())
+        return {'res': 'ok', 'n': n}
+    except __import__("xmlschema.exceptions").exceptions.XMLResourceExceeded as e:
+        msg = str(e)
+        return {'res': 'depth' if 'maximum XML depth' in msg else 'elements' if 'maximum XML elements' in msg else 'exceeded?',
+                'exc': type(e).__name__}
+    except RecursionError as e:
+        return {'res': 'exc', 'exc': 'RecursionError', 'msg': str(e)[:100]}
+    except Exception as e:  # noqa
+        return {'res': 'exc', 'exc': type(e).__name__, 'msg': str(e)[:200]}
+
+
+class LimitSetting:
+    def __init__(self, depth: int, elements: int):
+        self.depth, self.elements = depth, elements
+
+    def __enter__(self) -> 'LimitSetting':
+        from xmlschema import limits
+        self.saved = (limits.MAX_XML_DEPTH, limits.MAX_XML_ELEMENTS)
+        limits.MAX_XML_DEPTH = self.depth
+        limits.MAX_XML_ELEMENTS = self.elements
+        State.max_xml_depth = self.depth
+        return self
+
+    def __exit__(self, *a: Any) -> None:
+        from xmlschema import limits
+        limits.MAX_XML_DEPTH, limits.MAX_XML_ELEMENTS = self.saved
+        State.max_xml_depth = self.saved[0]
+
+
+def limit_case(ctx: Ctx, L: int, E: int, f: list, kind: str, reqs: Optional[list], pend: Optional[list],
+               schema: Any = None) -> None:
+    xml = forest_xml(f)
+    data = xml.encode()
+    depth, size = forest_depth(f), forest_size(f)
+    evs = events_of(data)
+    for lazy in (False, True):
+        case = {'limits': {'MAX_XML_DEPTH': L, 'MAX_XML_ELEMENTS': E}, 'kind': kind, 'depth': depth, 'size': size,
+                'lazy': lazy, 'xml': xml if len(xml) < 600 else None, 'forest': f if len(xml) >= 600 and size < 400 else None,
+                'gen': None if len(xml) < 600 or size < 400 else {'chain': depth, 'elements': size}}
+        out = resource_outcome(data, lazy)
+        over_depth = depth > L
+        over_size = (size > E) and not lazy
+        near = abs(depth - L) <= 1 or abs(size - E) <= 1
+        ctx.case(case, out['res'] != 'ok' or near, tag='limit/%s/%s' % ('lazy' if lazy else 'eager', kind))
+        ctx.count('limit-outcome:%s' % out['res'])
+        # the property itself
+        if out['res'] == 'exc':
+            report(ctx, 'building / traversing the resource raised something else than the documented resource error',
+                   case, {'exc': out['exc'], 'msg': out.get('msg'), 'entry': 'XMLResource'})
+        elif (over_depth or over_size) and out['res'] == 'ok':
+            ctx.failure('a document over a limit was processed instead of being refused with XMLResourceExceeded', case, out)
+        elif not (over_depth or over_size) and out['res'] != 'ok':
+            ctx.failure('a document within the limits was refused', case, out)
+        if reqs is not None and evs is not None:
+            reqs.append({'op': 'parse', 'L': L, 'E': E, 'events': evs})
+            pend.append(('parse', case, out, lazy))
+    # "documents within the limits are processed": the validator gives a verdict for them
+    if schema is not None and depth <= L and size <= E:
+        case = {'limits': {'MAX_XML_DEPTH': L, 'MAX_XML_ELEMENTS': E}, 'kind': kind + '/validate', 'depth': depth, 'size': size,
+                'xml': xml if len(xml) < 600 else None, 'gen': {'chain': depth, 'elements': size}}
+        for name, fn in (('is_valid', lambda: schema.is_valid(data)), ('decode:lax', lambda: schema.decode(data, validation='lax')),
+                         ('lazy is_valid', lambda: schema.is_valid(__import__('xmlschema').XMLResource(data, lazy=True)))):
+            o = call(fn)
+            ctx.case(dict(case, entry=name), o['class'] != 'verdict', tag='limit/validate')
+            ctx.count('validate-within-limits:%s' % (o.get('exc') or 'verdict'))
+            if o['class'] != 'verdict':
+                report(ctx, 'a document within the limits was not processed to a verdict', case,
+                       {'exc': o.get('exc'), 'msg': o.get('msg'), 'entry': name, 'mode': 'lax'})
+
+
+def call(fn: Callable[[], Any]) -> dict:
+    """Outcome class of one call on the real code: verdict | library | foreign (by isinstance, independent of Lean)."""
+    import xmlschema
+    try:
+        r = fn()
+        return {'class': 'verdict', 'value': r if isinstance(r, bool) else None}
+    except xmlschema.XMLSchemaException as e:
+        return {'class': 'library', 'exc': type(e).__name__, 'msg': str(e)[:300], 'where': where(e),
+                'validation_error': isinstance(e, xmlschema.XMLSchemaValidationError)}
+    except BaseException as e:  # noqa
+        if isinstance(e, (KeyboardInterrupt, SystemExit)):
+            raise
+        return {'class': 'foreign', 'exc': type(e).__name__, 'msg': str(e)[:300], 'where': where(e)}
+
+
+def where(e: BaseException) -> list[str]:
+    """innermost frames of the traceback that lie in the package under check (file:line function)"""
+    import traceback
+    fr = [f for f in traceback.extract_tb(e.__traceback__) if 'xmlschema' in f.filename]
+    return ['%s:%d %s' % (f.filename.split('xmlschema/', 1)[-1], f.lineno, f.name) for f in fr[-4:]]
+
+
+def measure_d0(schema: Any) -> Optional[int]:
+    """Smallest chain depth at which validation raises RecursionError (with some frames of head-room so that every
+    call site of this module is at most as deep as the measurement)."""
+    def deep(k: int, fn: Callable[[], Any]) -> Any:
+        return fn() if k == 0 else deep(k - 1, fn)
+
+    def fails(d: int) -> bool:
+        data = forest_xml(chain(d)).encode()
+        o = deep(25, lambda: call(lambda: schema.is_valid(data)))
+        return o.get('exc') == 'RecursionError'
+    lo, hi = 20, 1000
+    if not fails(hi):
+        return None
+    while lo < hi:
+        mid = (lo + hi) // 2
+        if fails(mid):
+            hi = mid
+        else:
+            lo = mid + 1
+    # monotonicity is not guaranteed (caches warm up): take the smallest failing depth of a downward scan window
+    d0 = lo
+    for d in range(lo - 1, max(lo - 12, 20), -1):
+        if fails(d):
+            d0 = d
+    return d0
+
+
+def limits_part(ctx: Ctx, drv: Optional[Driver]) -> None:
+    import xmlschema
+    schema = xmlschema.XMLSchema10(RECURSIVE_XSD)
+    State.d0 = measure_d0(schema)
+    ctx.extra['recursion'] = {'smallest_failing_depth_D0': State.d0, 'recursion_limit': sys.getrecursionlimit()}
+    reqs: Optional[list] = [] if drv else None
+    pend: Optional[list] = [] if drv else None
+    settings = ctx.pick([(1000, 10 ** 6), (50, 40), (7, 5), (1, 1), (3, 3000), (12, 2)],
+                        [(1000, 10 ** 6), (1000, 1000), (300, 10 ** 6), (50, 40), (7, 5), (1, 1), (2, 2), (3, 3000), (12, 2), (5, 100)])
+    n_random = ctx.pick(900, 6000)
+    for L, E in settings:
+        with LimitSetting(L, E):
+            for d in (L - 1, L, L + 1):
+                if d >= 1:
+                    limit_case(ctx, L, E, chain(d), 'chain', reqs, pend, schema if d <= E else None)
+            if E <= 5000 or not ctx.quick():
+                for c in (E - 1, E, E + 1):
+                    if c >= 1 and L >= 2 or c == 1:
+                        limit_case(ctx, L, E, wide(c), 'wide', reqs, pend, schema if E <= 5000 else None)
+            if L <= 60 and E <= 5000:
+                for d in (L - 1, L, L + 1):
+                    for c in (E - 1, E, E + 1):
+                        if 2 <= d <= c:
+                            limit_case(ctx, L, E, comb(d, c), 'comb', reqs, pend, schema)
+        # random forests around small limits derived from this setting
+        l2, e2 = min(L, 6), min(E, 14)
+        with LimitSetting(l2, e2):
+            for _ in range(n_random // len(settings)):
+                f = random_forest(ctx.rng, l2 + 2, e2 + 4)
+                limit_case(ctx, l2, e2, f, 'random', reqs, pend, schema if ctx.rng.random() < 0.2 else None)
+    if drv and reqs:
+        for (what, case, out, lazy), ans in zip(pend, drv.query(reqs)):
+            ctx.traces += 1
+            want = ans['lazy'] if lazy else ans['eager']
+            if 'err' in ans or out['res'] != want:
+                ctx.mismatch('parse loop (%s)' % ('lazy' if lazy else 'eager'), case, out, ans)
+            elif out['res'] != 'ok' and ans.get('exc') != out.get('exc') and not lazy:
+                ctx.mismatch('refusal exception class', case, out, ans)
+
+
+# ------------------------------------------------------------------------------------------------
+# limit setters
+
+def setters_part(ctx: Ctx, drv: Optional[Driver]) -> None:
+    from xmlschema import limits, _limits
+    from xmlschema.exceptions import XMLSchemaTypeError, XMLSchemaValueError
+    saved = {py: getattr(limits, py) for _, py in LIMIT_ATTRS}
+    py_of = dict(LIMIT_ATTRS)
+    mins = {'modelDepth': 5, 'schemaSources': 10, 'xmlDepth': 1, 'xmlElements': 1}
+    values: list[Any] = [-(10 ** 12), -1, 0, 1, 2, 4, 5, 6, 9, 10, 11, 1000, 10 ** 12, True, False, 1.5, 3.0, '5', None, [1]]
+
+    def model_value(v: Any) -> Any:
+        return int(v) if isinstance(v, int) else None        # bool is an int in Python; everything else: not an int
+
+    seqs: list[list[tuple[str, Any]]] = [[(a, v)] for a, _ in LIMIT_ATTRS for v in values]
+    for _ in range(ctx.pick(150, 1500)):
+        seqs.append([(ctx.rng.choice(LIMIT_ATTRS)[0], ctx.rng.choice(values)) for _ in range(ctx.rng.randint(2, 6))])
+    reqs, pend = [], []
+    try:
+        for seq in seqs:
+            for _, py in LIMIT_ATTRS:
+                setattr(limits, py, saved[py])
+            results = []
+            for a, v in seq:
+                try:
+                    setattr(limits, py_of[a], v)
+                    results.append('ok')
+                except XMLSchemaTypeError:
+                    results.append('type')
+                except XMLSchemaValueError:
+                    results.append('value')
+                except Exception as e:  # noqa
+                    results.append('exc:' + type(e).__name__)
+            final = {a: int(getattr(_limits, py)) for a, py in LIMIT_ATTRS}
+            public = {a: getattr(limits, py) for a, py in LIMIT_ATTRS}
+            case = {'assignments': [[a, repr(v)] for a, v in seq]}
+            ctx.case(case, any(r != 'ok' for r in results), tag='setter')
+            for r in results:
+                ctx.count('setter:' + r)
+            # the property: the effective limits never go below the documented minima, only library errors are raised
+            if any(r.startswith('exc:') for r in results):
+                ctx.failure('a limit setter raised something else than XMLSchemaTypeError / XMLSchemaValueError', case, results)
+            if any(final[a] < mins[a] for a in final):
+                ctx.failure('a limit was set below its documented minimum', case, final)
+            if any(public[a] != final[a] for a in final):
+                ctx.failure('xmlschema.limits and the effective xmlschema._limits disagree', case, {'public': str(public), 'effective': final})
+            reqs.append({'op': 'set', 'ops': [[a, model_value(v)] for a, v in seq]})
+            pend.append((case, results, final))
+    finally:
+        for _, py in LIMIT_ATTRS:
+            setattr(limits, py, saved[py])
+    if drv:
+        for (case, results, final), ans in zip(pend, drv.query(reqs)):
+            ctx.traces += 1
+            if 'err' in ans or ans['results'] != results or ans['final'] != final or ans['applyAll'] != final:
+                ctx.mismatch('limit setters', case, {'results': results, 'final': final}, ans)
+
+
+# ------------------------------------------------------------------------------------------------
+# handler coverage on the real code
+
+def handlers_part(ctx: Ctx, drv: Optional[Driver]) -> None:
+    """For every (built-in type, lexical value) whose converter raises class C: does the error leak out of a skip /
+    lax decode?  Compared with `catches site.handlers C` of the model over the regenerated tables."""
+    import xmlschema
+    obs: dict[tuple[str, str], dict] = {}
+    for cls in (xmlschema.XMLSchema10, xmlschema.XMLSchema11):
+        s = cls('<xs:schema xmlns:xs="http://www.w3.org/2001/XMLSchema"/>')
+        for name, t in sorted(s.maps.types.items()):
+            if not hasattr(t, 'to_python') or not hasattr(t, 'decode'):
+                continue
+            local = name.split('}')[-1]
+            for v in CATALOGUE:
+                try:
+                    t.to_python(t.normalize(v) if hasattr(t, 'normalize') else v)
+                    continue
+                except Exception as e:  # noqa
+                    raised = type(e).__name__
+                for mode, site in (('skip', 'builtin.to_python:skip'), ('lax', 'builtin.to_python:validate')):
+                    case = {'type': local, 'value': v if len(v) < 60 else v[:20] + '…(%d)' % len(v), 'mode': mode,
+                            'v': s.version if hasattr(s, 'version') else cls.__name__}
+                    o = call(lambda: t.decode(v, validation=mode))
+                    ctx.case(case, True, tag='handler/' + mode)
+                    ctx.count('handler-raised:' + raised)
+                    leaked = o['class'] != 'verdict'
+                    if leaked:
+                        report(ctx, '%s-mode decoding of a built-in type raised' % mode, case,
+                               {'exc': o.get('exc'), 'msg': o.get('msg'), 'mode': mode, 'entry': 'XsdAtomicBuiltin.decode'})
+                    key = (site, raised)
+                    rec = obs.setdefault(key, {'leaked': False, 'caught': False, 'example': case})
+                    if leaked and o.get('exc') == raised:
+                        rec['leaked'] = True
+                        rec['example'] = case
+                    elif not leaked:
+                        rec['caught'] = True
+    # the parse loops: what the parser raises for each byte stream of the catalogue vs what leaves XMLResource
+    from xml.etree import ElementTree as ET
+    for data in PARSE_CATALOGUE:
+        try:
+            for _ in ET.iterparse(io.BytesIO(data), events=('start',)):
+                pass
+            continue
+        except Exception as e:  # noqa
+            raised = type(e).__name__
+        for lazy, site in ((False, 'xml_loader._parse'), (True, 'xml_loader._lazy_iterparse')):
+            case = {'schema': 'none', 'mutation': 'parse-catalogue', 'xml': data.decode('latin-1'), 'hex': data.hex(), 'lazy': lazy}
+            o = call(lambda: [None for _ in xmlschema.XMLResource(data, lazy=lazy).iter()] and None)
+            ctx.case(case, True, tag='handler/parse')
+            ctx.count('handler-raised:' + raised)
+            if o['class'] == 'foreign':
+                report(ctx, 'an exception outside the library hierarchy escaped', case,
+                       {'exc': o['exc'], 'msg': o['msg'], 'entry': 'XMLResource', 'mode': 'n/a', 'where': o.get('where')})
+            rec = obs.setdefault((site, raised), {'leaked': False, 'caught': False, 'example': case})
+            if o['class'] == 'foreign' and o.get('exc') == raised:
+                rec['leaked'] = True
+                rec['example'] = case
+            elif o['class'] == 'library':
+                rec['caught'] = True
+    # xsi:type look-ups: on the root element only elements.py handles it, on a child groups.py sees it first
+    s = xmlschema.XMLSchema10(G.xsd_text('T', False))
+    px = 'xmlns:p="urn:t" xmlns:xsi="%s"' % G.XSI
+    for tname in ('p:ext', 'p:other', 'p:nonexistent', 'zz:base', 'nonexistent', 'p:code', 'xs:int'):
+        try:
+            s.maps.get_instance_type(tname, s.types['base'], {'p': G.TNS, 'xs': 'http://www.w3.org/2001/XMLSchema'})
+            continue
+        except Exception as e:  # noqa
+            raised = type(e).__name__
+        docs = {'group.check_dynamic_context': '<p:root %s version="1"><p:title>x</p:title><p:head xsi:type="%s"><p:n>a</p:n></p:head></p:root>' % (px, tname),
+                'element.get_instance_type': '<p:head %s xsi:type="%s"><p:n>a</p:n></p:head>' % (px, tname)}
+        for site, xml in docs.items():
+            case = {'schema': 'T/1.0', 'mutation': 'xsi-type-catalogue', 'xml': xml, 'site': site}
+            o = call(lambda: s.is_valid(xml))
+            ctx.case(case, True, tag='handler/xsi')
+            ctx.count('handler-raised:' + raised)
+            if o['class'] != 'verdict':
+                report(ctx, 'lax mode raised for a well-formed document (invalid content must be collected, not raised)', case,
+                       {'exc': o.get('exc'), 'msg': o.get('msg'), 'entry': 'is_valid', 'mode': 'lax', 'where': o.get('where')})
+            rec = obs.setdefault((site, raised), {'leaked': False, 'caught': False, 'example': case})
+            if o['class'] != 'verdict' and o.get('exc') == raised:
+                rec['leaked'] = True
+                rec['example'] = case
+            elif o['class'] == 'verdict':
+                rec['caught'] = True
+    # XSD 1.1 assertions
+    s11 = xmlschema.XMLSchema11(G.xsd_text('T', True))
+    for body, raised in (('<p:price>NaN</p:price>', 'InvalidOperation'),
+                         ('<p:code xsi:type=":">A</p:code><p:price>1</p:price>', 'ValueError'),
+                         ('<p:code xsi:type="a:b:c">A</p:code><p:price>1</p:price>', 'ValueError')):
+        xml = '<p:root %s version="2"><p:title>x</p:title><p:item key="1">%s</p:item></p:root>' % (px, body)
+        case = {'schema': 'T/1.1', 'mutation': 'assertion-catalogue', 'xml': xml}
+        o = call(lambda: s11.is_valid(xml))
+        ctx.case(case, True, tag='handler/assert')
+        ctx.count('handler-raised:' + raised)
+        if o['class'] == 'foreign':
+            report(ctx, 'an exception outside the library hierarchy escaped', case,
+                   {'exc': o['exc'], 'msg': o['msg'], 'entry': 'is_valid', 'mode': 'lax', 'where': o.get('where')})
+        elif o['class'] == 'library':
+            report(ctx, 'lax mode raised for a well-formed document (invalid content must be collected, not raised)', case,
+                   {'exc': o['exc'], 'msg': o['msg'], 'entry': 'is_valid', 'mode': 'lax', 'where': o.get('where')})
+        rec = obs.setdefault(('assertion.evaluate', raised), {'leaked': False, 'caught': False, 'example': case})
+        if o['class'] == 'foreign' and o.get('exc') == raised:
+            rec['leaked'] = True
+        elif o['class'] == 'verdict':
+            rec['caught'] = True
+    if drv:
+        keys = sorted(obs)
+        for (site, raised), ans in zip(keys, drv.query([{'op': 'covers', 'site': s, 'name': n} for s, n in keys])):
+            ctx.traces += 1
+            rec = obs[site, raised]
+            # model: covered <=> never leaks
+            if ans.get('covers') is None:
+                ctx.mismatch('handler table has no entry', {'site': site, 'class': raised}, rec, ans)
+            elif ans['covers'] == rec['leaked'] or (ans['covers'] and not rec['caught']):
+                ctx.mismatch('handler coverage', {'site': site, 'class': raised, 'example': rec['example']},
+                             {'leaked': rec['leaked'], 'caught': rec['caught']}, ans)
+
+
+# ------------------------------------------------------------------------------------------------
+# mutation / fuzz exploration
+
+NASTY = ['99999999999999999999', '-99999999999999999999', '9' * 400, '1e400', '-1E400', '1' + '0' * 5000, 'NaN', 'INF', '0x10',
+         '99999999999999999999-01-01', '-99999999999999999999-12-31', '99999999999999999999-01-01T00:00:00Z', '0000', '00000',
+         '2024-02-30', 'P99999999999999999999Y', 'PT1e3S', ':', 'a:', ':a', 'a:b:c', 'p:', 'zz:name', '{urn:t}x', '1abc', 'p:1',
+         'xsi:type', '', ' ', '\t\n', 'a' * 70000, 'é中\U0001f600', '​', '&lt;', ']]>', '%s%s%n', '-0', '+', '.', '1.',
+         '.5', '1,5', '١٢٣', 'true ', 'TRUE', 'null', 'None', '[]', '{}']
+XSI_ATTRS = [('type', ['p:ext', 'p:nonexistent', 'zz:base', 'xs:int', 'ext', '', ':', 'p:base p:ext', 'p:absT', 'p:code', 'p:intOrCode']),
+             ('nil', ['true', 'false', '1', 'maybe', '']),
+             ('schemaLocation', ['urn:t', 'urn:t file:///nonexistent.xsd', 'a b c', '']),
+             ('noNamespaceSchemaLocation', ['file:///nonexistent.xsd', 'http://127.0.0.1:9/x.xsd', '\x7f']),
+             ('unknown', ['1'])]
+
+
+def mutate_tree(rng: Any, root: G.Node) -> str:
+    """One structural / lexical mutation on a tree; returns its description."""
+    nodes = list(root.iter())
+    kind = rng.choice(['value', 'value', 'attr', 'xsi', 'xsi', 'ns-elem', 'ns-attr', 'delete', 'dup', 'swap', 'deep', 'rename',
+                       'text-in-element', 'many'])
+    n = rng.choice(nodes)
+    if kind == 'value':
+        leaves = [x for x in nodes if not x.children]
+        n = rng.choice(leaves) if leaves else n
+        n.text = rng.choice(NASTY)
+    elif kind == 'attr':
+        cands = [(x, k) for x in nodes for k in x.attrs]
+        if cands:
+            x, k = rng.choice(cands)
+            x.attrs[k] = rng.choice(NASTY)
+        else:
+            n.attrs[('', 'a')] = rng.choice(NASTY)
+    elif kind == 'xsi':
+        name, vals = rng.choice(XSI_ATTRS)
+        n.attrs[(G.XSI, name)] = rng.choice(vals)
+    elif kind == 'ns-elem':
+        n.ns = rng.choice([G.ONS, '', G.TNS])
+    elif kind == 'ns-attr':
+        n.attrs[(G.ONS, rng.choice(['x', 'type', 'nil']))] = rng.choice(NASTY)
+    elif kind == 'delete':
+        p = root.parent_of(n)
+        if p is not None:
+            p.children.remove(n)
+    elif kind == 'dup':
+        p = root.parent_of(n)
+        if p is not None:
+            for _ in range(rng.choice([1, 1, 5])):
+                p.children.insert(p.children.index(n), G.clone(n))
+    elif kind == 'swap':
+        if len(n.children) >= 2:
+            rng.shuffle(n.children)
+    elif kind == 'deep':
+        cur = n
+        for _ in range(rng.choice([5, 30, 120])):
+            c = G.Node(n.ns, n.name, dict(n.attrs), None, [])
+            cur.children.append(c)
+            cur = c
+    elif kind == 'rename':
+        n.name = rng.choice(['title', 'item', 'head', 'root', 'doc', 'x', 'n', 'ahead', 'cfg'])
+    elif kind == 'text-in-element':
+        n.text = rng.choice(NASTY)
+        if n.children:
+            n.children[0].tail = rng.choice(NASTY)
+    else:
+        p = root.parent_of(n) or root
+        for _ in range(300):
+            p.children.append(G.clone(n) if not n.children else G.Node(n.ns, n.name, {}, 'x'))
+    return kind
+
+
+def mutate_bytes(rng: Any, data: bytes) -> tuple[bytes, str]:
+    kind = rng.choice(['truncate', 'truncate', 'flip', 'insert', 'drop', 'encoding', 'doctype', 'entity', 'bom', 'tag-garble'])
+    if not data:
+        return data, 'empty'
+    i = rng.randrange(len(data))
+    if kind == 'truncate':
+        return data[:i], kind
+    if kind == 'flip':
+        b = bytearray(data)
+        for _ in range(rng.choice([1, 1, 3, 10])):
+            j = rng.randrange(len(b))
+            b[j] = rng.choice([0, 0xff, 0x3c, 0x26, 0x3e, 0x22, b[j] ^ 0x20, rng.randrange(256)])
+        return bytes(b), kind
+    if kind == 'insert':
+        junk = rng.choice([b'\x00', b'\xff\xfe', b'<', b'&', b'&#xD800;', b'&#0;', b'&undefined;', b'<!--', b']]>', b'<![CDATA[', b'\xc3',
+                           b'&#x110000;', b'<?xml version="1.0"?>', b'</x>', b'\xef\xbf\xbe'])
+        return data[:i] + junk + data[i:], kind
+    if kind == 'drop':
+        j = min(len(data), i + rng.choice([1, 2, 10]))
+        return data[:i] + data[j:], kind
+    if kind == 'encoding':
+        enc = rng.choice(['utf-16', 'latin-1', 'utf-32', 'ascii', 'no-such-encoding', 'utf-8'])
+        body = data.decode('utf-8', 'replace')
+        decl = '<?xml version="1.0" encoding="%s"?>' % enc
+        try:
+            return (decl + body).encode(rng.choice([enc, 'utf-8'])), kind
+        except (LookupError, UnicodeError):
+            return (decl + body).encode('utf-8'), kind
+    if kind == 'doctype':
+        return b'<!DOCTYPE r [<!ENTITY e "x"><!ELEMENT r ANY>]>' + data, kind
+    if kind == 'entity':
+        return b'<!DOCTYPE r [<!ENTITY a "aaaaaaaaaa"><!ENTITY b "&a;&a;&a;&a;&a;&a;&a;&a;">]>' + data.replace(b'>', b'>&b;', 1), kind
+    if kind == 'bom':
+        return rng.choice([b'\xef\xbb\xbf', b'\xff\xfe', b'\xfe\xff']) + data, kind
+    j = data.find(b'<', i)
+    if j < 0:
+        return data + b'<', kind
+    return data[:j + 1] + rng.choice([b' ', b'1', b':', b'/', b'!', b'?']) + data[j + 1:], kind
+
+
+def doc_depth(data: bytes) -> Optional[int]:
+    evs = events_of(data)
+    if evs is None:
+        return None
+    d = m = 0
+    for c in evs:
+        if c == 's':
+            d += 1
+            m = max(m, d)
+        elif c == 'e':
+            d -= 1
+    return m
+
+
+def fuzz_entry_points(schema: Any) -> list[tuple[str, str, Callable[[bytes], Any]]]:
+    import xmlschema
+    cls = type(schema)
+    return [
+        ('XMLResource', 'n/a', lambda d: xmlschema.XMLResource(d) and None),
+        ('is_valid', 'lax', lambda d: schema.is_valid(d)),
+        ('iter_errors', 'lax', lambda d: list(schema.iter_errors(d)) and None),
+        ('validate', 'strict', lambda d: schema.validate(d)),
+        ('decode:strict', 'strict', lambda d: schema.decode(d) and None),
+        ('decode:lax', 'lax', lambda d: schema.decode(d, validation='lax') and None),
+        ('decode:skip', 'skip', lambda d: schema.decode(d, validation='skip') and None),
+        ('pkg.to_dict:lax', 'lax', lambda d: xmlschema.to_dict(d, schema, cls=cls, validation='lax') and None),
+        ('lazy.is_valid', 'lax', lambda d: schema.is_valid(xmlschema.XMLResource(d, lazy=True))),
+        ('lazy.decode:lax', 'lax', lambda d: schema.decode(xmlschema.XMLResource(d, lazy=True), validation='lax') and None),
+    ]
+
+
+def fuzz_case(ctx: Ctx, schema: Any, sname: str, data: bytes, how: str, seen_classes: dict) -> None:
+    wf_depth = doc_depth(data)
+    well_formed = wf_depth is not None
+    try:
+        text = data.decode('utf-8')
+    except UnicodeDecodeError:
+        text = data.decode('latin-1')
+    case_base = {'schema': sname, 'mutation': how, 'xml': text,
+                 'hex': data.hex() if not data.isascii() else None, 'depth': wf_depth, 'well_formed': well_formed}
+    outcomes = []
+    for name, mode, fn in fuzz_entry_points(schema):
+        o = call(lambda: fn(data))
+        if o.get('exc') == 'XMLResourceError' and 'already under iteration' in o.get('msg', ''):
+            # the lock of a lazy resource is released when its abandoned generator is finalised: timing of the
+            # garbage collector, not a property of the input (counted; retried once after a collection)
+            import gc
+            ctx.count('lazy-lock-held-by-unfinalised-generator')
+            gc.collect()
+            o = call(lambda: fn(data))
+        outcomes.append(o['class'] if o['class'] != 'verdict' else 'verdict')
+        if o.get('exc'):
+            seen_classes.setdefault(o['exc'], o['class'])
+        ctx.count('fuzz-outcome:%s' % (o.get('exc') or 'verdict'))
+        case = dict(case_base, entry=name)
+        if o['class'] == 'foreign':
+            report(ctx, 'an exception outside the library hierarchy escaped', case,
+                   {'exc': o['exc'], 'msg': o['msg'], 'entry': name, 'mode': mode, 'where': o.get('where')})
+        elif o['class'] == 'library' and mode in ('lax', 'skip') and well_formed and wf_depth <= State.max_xml_depth:
+            # lax / skip never raise for invalid content: for a well-formed document within the limits they return
+            if o['exc'] in ('XMLResourceForbidden', 'XMLResourceBlocked'):
+                continue     # refused by the security settings (properties C12 / C13), not "invalid content"
+            report(ctx, '%s mode raised for a well-formed document (invalid content must be collected, not raised)' % mode,
+                   case, {'exc': o['exc'], 'msg': o['msg'], 'entry': name, 'mode': mode, 'where': o.get('where')})
+    ctx.case({'schema': sname, 'mutation': how, 'xml': case_base['xml'], 'hex': case_base['hex']},
+             any(x != 'verdict' for x in outcomes) or not well_formed, tag='fuzz/' + how.split(':')[0])
+    ctx.count('fuzz-doc:%s' % ('well-formed' if well_formed else 'malformed'))
+
+
+def corpus_docs() -> list[tuple[str, Path, list[Path]]]:
+    base = REPO / 'tests' / 'test_cases' / 'examples'
+    out = []
+    for d, xsd, xmls in (('vehicles', 'vehicles.xsd', ['vehicles.xml', 'vehicles-1_error.xml', 'vehicles-2_errors.xml']),
+                         ('collection', 'collection.xsd', ['collection.xml', 'collection-1_error.xml'])):
+        p = base / d / xsd
+        if p.exists():
+            out.append((d, p, [base / d / x for x in xmls if (base / d / x).exists()]))
+    return out
+
+
+def fuzz_part(ctx: Ctx, drv: Optional[Driver]) -> None:
+    import xmlschema
+    rng = ctx.rng
+    schemas: dict[str, Any] = {}
+    for fam in 'TN':
+        for v11 in (False, True):
+            schemas['%s/%s' % (fam, '1.1' if v11 else '1.0')] = (xmlschema.XMLSchema11 if v11 else xmlschema.XMLSchema10)(G.xsd_text(fam, v11))
+    schemas['recursive/1.0'] = xmlschema.XMLSchema10(RECURSIVE_XSD)
+    corpus: list[tuple[str, bytes]] = []
+    for name, xsd, xmls in corpus_docs():
+        try:
+            schemas['corpus:' + name] = xmlschema.XMLSchema10(str(xsd))
+        except Exception as e:  # noqa
+            ctx.notes.append('corpus schema %s not usable: %s' % (name, type(e).__name__))
+            continue
+        for x in xmls:
+            corpus.append(('corpus:' + name, x.read_bytes()))
+    seen: dict[str, str] = {}
+    n_tree = ctx.pick(1500, 12000)
+    n_bytes = ctx.pick(1300, 10000)
+    # witnesses of the listed findings first
+    for sname, xml in (('N/1.0', '<doc><yr>99999999999999999999</yr></doc>'),
+                       ('T/1.0', '<p:root xmlns:p="urn:t" xmlns:xsi="%s" version="1"><p:title>x</p:title>'
+                                 '<p:head xsi:type="p:nonexistent"><p:n>a</p:n></p:head></p:root>' % G.XSI)):
+        fuzz_case(ctx, schemas[sname], sname, xml.encode(), 'witness', seen)
+    for i in range(n_tree):
+        fam = rng.choice(['T', 'T', 'N'])
+        v = rng.choice(['1.0', '1.1'])
+        c = G.gen_case(rng, family=fam, nfaults=rng.choice([0, 0, 1]))
+        root = c['tree']
+        hows = []
+        for _ in range(rng.choice([1, 1, 2, 3])):
+            hows.append(mutate_tree(rng, root))
+        data = G.serialize(root, c['style']).encode('utf-8', 'surrogatepass')
+        fuzz_case(ctx, schemas['%s/%s' % (fam, v)], '%s/%s' % (fam, v), data, 'tree:' + '+'.join(hows), seen)
+    for i in range(n_bytes):
+        if corpus and rng.random() < 0.35:
+            sname, data = rng.choice(corpus)
+        else:
+            fam = rng.choice(['T', 'N'])
+            sname = '%s/%s' % (fam, rng.choice(['1.0', '1.1']))
+            data = G.gen_case(rng, family=fam, nfaults=0)['xml'].encode()
+        hows = []
+        for _ in range(rng.choice([1, 1, 2])):
+            data, h = mutate_bytes(rng, data)
+            hows.append(h)
+        fuzz_case(ctx, schemas[sname], sname, data, 'bytes:' + '+'.join(hows), seen)
+    for sname, data in corpus:
+        fuzz_case(ctx, schemas[sname], sname, data, 'corpus', seen)
+    # recursion: documents deep but inside MAX_XML_DEPTH (finding C11-F2 is matched exactly by depth >= D0)
+    rs = schemas['recursive/1.0']
+    depths = sorted({5, 60, 150} | ({State.d0 - 3, State.d0 - 1, State.d0, State.d0 + 1, State.d0 + 40, 999, 1000} if State.d0 else {999, 1000}))
+    for d in depths:
+        if d >= 1:
+            fuzz_case(ctx, rs, 'recursive/1.0', forest_xml(chain(d)).encode(), 'depth:%d' % d, seen)
+    ctx.extra['exception_classes_seen'] = dict(sorted(seen.items()))
+    if drv and seen:
+        names = sorted(seen)
+        for n, ans in zip(names, drv.query([{'op': 'classify', 'name': n} for n in names])):
+            ctx.traces += 1
+            if ans.get('class') == 'unknown':
+                if seen[n] == 'library':
+                    ctx.mismatch('library exception class missing from the generated hierarchy table', {'class': n}, seen[n], ans)
+            elif ans.get('class') != seen[n]:
+                ctx.mismatch('classification of an exception class', {'class': n}, seen[n], ans)
+
+
+# ------------------------------------------------------------------------------------------------
+
+def run(ctx: Ctx, driver_ok: bool) -> None:
+    ctx.known.extend(e for e in local_findings() if e.get('property') == 'C11'
+                     and not any(k['id'] == e['id'] for k in ctx.known))
+    drv = Driver('drv_c11') if driver_ok else None
+    limits_part(ctx, drv)
+    setters_part(ctx, drv)
+    handlers_part(ctx, drv)
+    fuzz_part(ctx, drv)
+
+
+def search(ctx: Ctx) -> None:
+    """A proof obligation or the tie broke and nothing failed: widen every exploration to the thorough sizes."""
+    saved = ctx.tier
+    ctx.tier = 'thorough'
+    try:
+        limits_part(ctx, None)
+        if not ctx.failures:
+            setters_part(ctx, None)
+        if not ctx.failures:
+            handlers_part(ctx, None)
+        if not ctx.failures:
+            fuzz_part(ctx, None)
+    finally:
+        ctx.tier = saved
+
+
+def replay(ctx: Ctx, obj: dict) -> int:
+    import xmlschema
+    print(json.dumps(obj, indent=1, default=str)[:5000])
+    case = obj.get('input')
+    if not isinstance(case, dict):
+        return 0
+    ctx.known.extend(e for e in local_findings() if not any(k['id'] == e['id'] for k in ctx.known))
+    drv = Driver('drv_c11') if Driver('drv_c11').path.exists() else None
+    if 'limits' in case:
+        L, E = case['limits']['MAX_XML_DEPTH'], case['limits']['MAX_XML_ELEMENTS']
+        if case.get('forest') is not None:
+            f = json.loads(json.dumps(case['forest']))
+            f = to_forest(f)
+        elif case.get('gen'):
+            f = comb(case['gen']['chain'], case['gen']['elements'])
+        else:
+            f = None
+        with LimitSetting(L, E):
+            if f is not None:
+                reqs: list = []
+                pend: list = []
+                limit_case(ctx, L, E, f, case.get('kind', 'replay').split('/')[0], reqs if drv else None, pend if drv else None,
+                           xmlschema.XMLSchema10(RECURSIVE_XSD) if 'validate' in case.get('kind', '') else None)
+                if drv and reqs:
+                    for (w, c, out, lazy), ans in zip(pend, drv.query(reqs)):
+                        print('IMPLEMENTATION (%s):' % ('lazy' if lazy else 'eager'), out, ' MODEL:', ans)
+            elif case.get('xml'):
+                data = case['xml'].encode()
+                for lazy in (False, True):
+                    out = resource_outcome(data, lazy)
+                    evs = events_of(data)
+                    ans = drv.query([{'op': 'parse', 'L': L, 'E': E, 'events': evs}])[0] if drv and evs else None
+                    print('IMPLEMENTATION (%s):' % ('lazy' if lazy else 'eager'), out, ' MODEL:', ans)
+                    d, s = doc_depth(data) or 0, (evs or '').count('s')
+                    over = d > L or (s > E and not lazy)
+                    if (out['res'] == 'ok') == over or out['res'] == 'exc':
+                        ctx.failure('limit clause', case, out)
+    elif 'assignments' in case:
+        setters_part(ctx, drv)
+    elif 'type' in case and 'value' in case:
+        handlers_part(ctx, drv)
+    elif 'schema' in case:
+        sname = case['schema']
+        if sname.startswith('corpus:'):
+            d = dict((n, x) for n, x, _ in corpus_docs())
+            schema = xmlschema.XMLSchema10(str(d[sname.split(':', 1)[1]]))
+        elif sname.startswith('recursive'):
+            schema = xmlschema.XMLSchema10(RECURSIVE_XSD)
+            State.d0 = measure_d0(schema)
+        else:
+            fam, v = sname.split('/')
+            schema = (xmlschema.XMLSchema11 if v == '1.1' else xmlschema.XMLSchema10)(G.xsd_text(fam, v == '1.1'))
+        data = bytes.fromhex(case['hex']) if case.get('hex') else case['xml'].encode('utf-8', 'surrogatepass')
+        seen: dict = {}
+        for name, mode, fn in fuzz_entry_points(schema):
+            print('IMPLEMENTATION %-18s' % name, call(lambda: fn(data)))
+        fuzz_case(ctx, schema, sname, data, case.get('mutation', 'replay'), seen)
+        if drv and seen:
+            for n, ans in zip(sorted(seen), drv.query([{'op': 'classify', 'name': n} for n in sorted(seen)])):
+                print('MODEL classify', n, ans)
+    for f in ctx.failures[:6]:
+        print('FAILS ON THE REAL CODE:', f['what'], json.dumps(f['detail'], default=str)[:600])
+    print('JUDGEMENT:', 'property violated' if ctx.failures else 'property holds on this input')
+    return 1 if ctx.failures else 0
+
+
+def to_forest(j: Any) -> list:
+    return [(int(a), to_forest(b)) for a, b in j]
